@@ -33,9 +33,65 @@ def outcome(f, conv):
         return ce("EOther")
 
 
+def property_problems(m):
+    """C09 evaluated on one real object: list of violated clauses (empty = holds)"""
+    import betterproto as bp
+
+    def dumped(delim):
+        st = io.BytesIO()
+        m.dump(st, delim) if delim is not None else m.dump(st)
+        return st.getvalue()
+    try:
+        b = bytes(m)
+    except Exception:
+        try:
+            len(m)
+            return ["bytes(m) raises but len(m) returns"]
+        except Exception:
+            return []
+    problems = []
+    try:
+        if len(m) != len(b):
+            problems.append(f"len(m)={len(m)} but len(bytes(m))={len(b)}")
+        if dumped(None) != b:
+            problems.append("dump(stream) differs from bytes(m)")
+        if dumped(bp.SIZE_DELIMITED) != msggen.enc_varint(len(b)) + b:
+            problems.append("dump(stream, SIZE_DELIMITED) is not varint(len)+bytes(m)")
+        if m.SerializeToString() != b:
+            problems.append("SerializeToString differs from bytes(m)")
+    except Exception as e:
+        problems.append(f"bytes(m) succeeds but another observer raises {type(e).__name__}: {e}")
+    return problems
+
+
+def failing_input(s, m, tree):
+    """shrunk, replayable form of a failing object"""
+    small = msggen.shrink_tree(s, tree, lambda t: property_problems(msggen.rebuild(s, t)))
+    return {"schema_spec": msggen.schema_spec(s), "state": small, "repr": repr(msggen.rebuild(s, small))[:1500]}
+
+
+CORPUS = [  # regression inputs: former defects of the pinned tree (known_findings/fixed.txt)
+    ("F1 optional empty string", "KOptional", {"o_string_13": ""}),
+    ("F1 optional zero int", "KOptional", {"o_int32_2": 0}),
+    ("F1 optional empty bytes", "KOptional", {"o_bytes_14": b""}),
+    ("F13 map entry with default key and value", "KMap", {"m_string_string_25": {"": ""}}),
+    ("F13 map entry default key, empty message", "KMap", {"m_string_message_28": {"": None}}),
+]
+
+
 def run(ctx):
     import betterproto as bp
     rng = ctx.rng
+    matrix = msggen.matrix_schema()
+    for what, cname, kw in CORPUS:
+        ci = [c.name for c in matrix.classes].index(cname)
+        kw = {k: ({kk: (matrix.classes[0].py() if vv is None else vv) for kk, vv in v.items()} if isinstance(v, dict) else v) for k, v in kw.items()}
+        m = matrix.classes[ci].py(**kw)
+        tree = msggen.state_tree(matrix, m)
+        for p in property_problems(m):
+            ctx.fail("oracle", f"regression ({what}): {p}", input=failing_input(matrix, m, tree))
+        ctx.count("corpus")
+    matrix.dispose()
     schemas = [msggen.matrix_schema()] + [msggen.random_schema(rng) for _ in range(6 if not ctx.thorough else 60)]
     prelude = "\n".join(f"Definition sc{i} : schema := {s.coq()}." for i, s in enumerate(schemas))
     pairs, meta = [], []
@@ -48,6 +104,7 @@ def run(ctx):
             try:
                 m = msggen.gen_message(s, ci, rng, in_range=in_range)
                 lit = msggen.obj_literal(s, m)
+                tree = msggen.state_tree(s, m)
             except msggen.Unmodellable:
                 ctx.count("unmodellable")
                 continue
@@ -76,39 +133,27 @@ def run(ctx):
                 ok = True
             except Exception:
                 ok = False
-            if ok:
-                ctx.count("encodable")
-                if b:
-                    ctx.seen_nontrivial((si, ci, b))
-                problems = []
-                try:
-                    if len(m) != len(b):
-                        problems.append(f"len(m)={len(m)} but len(bytes(m))={len(b)}")
-                    if dumped(None) != b:
-                        problems.append("dump(stream) differs from bytes(m)")
-                    if dumped(bp.SIZE_DELIMITED) != msggen.enc_varint(len(b)) + b:
-                        problems.append("dump(stream, SIZE_DELIMITED) is not varint(len)+bytes(m)")
-                    if m.SerializeToString() != b:
-                        problems.append("SerializeToString differs from bytes(m)")
-                except Exception as e:
-                    problems.append(f"bytes(m) succeeds but another observer raises {type(e).__name__}: {e}")
-                for p in problems:
-                    ctx.fail("oracle", p, cls=None, input={"schema": s.describe(), "class": s.classes[ci].name, "repr": repr(m)[:2000], "bytes": b.hex()})
-            else:
-                ctx.count("unencodable")
-                try:
-                    len(m)
-                    ctx.fail("oracle", "bytes(m) raises but len(m) returns", input={"schema": s.describe(), "repr": repr(m)[:2000]})
-                except Exception:
-                    pass
+                b = b""
+            ctx.count("encodable" if ok else "unencodable")
+            if ok and b:
+                ctx.seen_nontrivial((si, ci, b))
+            probs = property_problems(m)
+            if probs and not any(f["kind"] == "oracle" and f["what"] == probs[0] for f in ctx.failures):
+                ctx.fail("oracle", probs[0], cls=None, all_problems=probs, input=failing_input(s, m, tree))
+            elif probs:
+                ctx.count("further_oracle_failures")
             if len(ctx.cov["samples"]) < 6 and ok and b:
                 ctx.sample({"class": s.classes[ci].name, "repr": repr(m)[:300], "bytes": b.hex()[:200]})
     bad = lib.coq_compare(ctx, "c09", IMPORTS, pairs, chunk=120, prelude=prelude)
-    for i in bad[:20]:
+    for i in sorted(bad, key=lambda i: len(pairs[i][0]))[:3]:
         si, ci, m = meta[i]
         ctx.fail("corr", "model (len_obj/enc_obj/dump) and implementation (len/bytes/dump) disagree",
-                 input={"schema": schemas[si].describe(), "class": schemas[si].classes[ci].name, "repr": repr(m)[:2000],
-                        "model_expr": pairs[i][0][:4000], "implementation": pairs[i][1][:4000]})
+                 theorem_or_correspondence="correspondence Model/Encode.v+Len.v <-> Message.dump/__len__",
+                 input={"class": schemas[si].classes[ci].name, "fields": schemas[si].describe()[schemas[si].classes[ci].name],
+                        "repr_after_observers": repr(m)[:1500], "model_expr": pairs[i][0][:3000], "implementation": pairs[i][1][:1500]},
+                 no_input=not [f for f in ctx.failures if f["kind"] == "oracle"])
+    if bad:
+        ctx.notes.append(f"{len(bad)} correspondence disagreements in total")
     ctx.cov["disagreements_checked"] = len(pairs)
     for s in schemas:
         s.dispose()
@@ -123,5 +168,17 @@ def finish(ctx):
 
 
 def replay(ctx, obj):
-    print(obj)
-    return 0
+    """re-run a recorded failing input against the current tree: exit 1 if the property still fails on it"""
+    inp = obj.get("input") or {}
+    if "schema_spec" not in inp:
+        print("replay file has no replayable input (correspondence / proof break):", obj.get("what") or obj.get("theorem_or_correspondence"))
+        return 0
+    s = msggen.schema_from_spec(inp["schema_spec"])
+    m = msggen.rebuild(s, inp["state"])
+    print("object:", repr(m)[:1000])
+    probs = property_problems(m)
+    for p in probs:
+        print("FAILS:", p)
+    if not probs:
+        print("property holds on this input")
+    return 1 if probs else 0
